@@ -28,7 +28,7 @@ struct function_ref<Noexcept, R(Args...)> {
         requires(not etl::is_same_v<decay_t<F>, function_ref> and etl::is_invocable_r_v<R, F &&, Args...>)
     function_ref(F&& f) noexcept
         : _obj(const_cast<void*>(reinterpret_cast<void const*>(etl::addressof(f))))
-        , _callable{+[](void* obj, Args... args) -> R {
+        , _callable{+[](void* obj, Args... args) noexcept(Noexcept) -> R {
             auto* func = reinterpret_cast<etl::add_pointer_t<F>>(obj);
             return etl::invoke_r<R>(*func, etl::forward<Args>(args)...);
         }}
@@ -40,7 +40,7 @@ struct function_ref<Noexcept, R(Args...)> {
         requires(etl::is_function_v<F> and etl::is_invocable_r_v<R, F*, Args...>)
     function_ref(F* f) noexcept
         : _obj(reinterpret_cast<void*>(f))
-        , _callable{+[](void* obj, Args... args) -> R {
+        , _callable{+[](void* obj, Args... args) noexcept(Noexcept) -> R {
             return etl::invoke_r<R>(reinterpret_cast<F*>(obj), etl::forward<Args>(args)...);
         }}
     {
